@@ -379,12 +379,56 @@ def conventional(rng, name, feat=None):
         q = f.message("ChatMessage")
         q.field("text", "string")
         q.field("seq", "int64")
-        s = svcs[0]
-        s.rpc("Chat", P + ".ChatMessage", P + ".ChatMessage", cs=True, ss=True)
-        tags.add("bidi-streaming")
-        if rng.random() < 0.5 or feat.get("streams"):
-            s.rpc("Collect", P + ".ChatMessage", P + ".ChatMessage", cs=True)
-            tags.add("client-streaming")
+        # streaming kinds are drawn per service and independently: a service may have only client streaming, only
+        # server streaming, only bidi, or any mix (imports and helpers of the emitted client depend on the mix)
+        any_stream = False
+        for si, s in enumerate(svcs):
+            sfx = "" if si == 0 else str(si)
+            picks = [k for k in ("bidi", "client", "server") if rng.random() < 0.45]
+            if not picks and not any_stream and si == len(svcs) - 1:
+                picks = [rng.choice(["bidi", "client", "server"])]
+            for k in picks:
+                any_stream = True
+                if k == "bidi":
+                    s.rpc("Chat" + sfx, P + ".ChatMessage", P + ".ChatMessage", cs=True, ss=True)
+                    tags.add("bidi-streaming")
+                elif k == "client":
+                    s.rpc("Collect" + sfx, P + ".ChatMessage", P + ".ChatMessage", cs=True)
+                    tags.add("client-streaming")
+                else:
+                    s.rpc("Tail" + sfx, P + ".ChatMessage", P + ".ChatMessage", ss=True)
+                    tags.add("server-streaming")
+            if picks:
+                tags.add("stream-mix:" + "+".join(picks))
+    if feat.get("exotic") or feat.get("collide"):
+        # locally defined types whose simple names equal well-known ones: they are ordinary messages of this package
+        lf = tf
+        le = lf.message("Empty")
+        le.field("reason", "string")
+        ls = lf.message("Status")
+        ls.field("code", "int32")
+        ls.field("detail", "string")
+        lo = lf.message("Operation")
+        lo.field("name", "string")
+        lo.field("done", "bool")
+        la = lf.message("Any")
+        la.field("blob", "bytes")
+        slot = lf.message("Slot")
+        se = slot.nested("Empty")
+        se.field("since", "int64")
+        slot.field("empty", P + ".Slot.Empty")
+        slot.field("status", P + ".Status")
+        slot.field("real_status", ".google.rpc.Status")
+        slot.field("real_any", ".google.protobuf.Any")
+        slot.field("local_any", P + ".Any")
+        s = svcs[-1]
+        s.rpc("PingLocal", P + ".ChatMessage" if any(m.name == "ChatMessage" for m in f.pb.message_type) else P + ".Aux", P + ".Empty")
+        s.rpc("PeekSlot", P + ".Slot", P + ".Slot.Empty")
+        s.rpc("LocalOp", P + ".Slot", P + ".Operation")
+        s.rpc("LocalStatus", P + ".Status", P + ".Status")
+        if rng.random() < 0.5:
+            s.rpc("WatchSlots", P + ".Slot", P + ".Slot.Empty", ss=True)
+        tags.add("local-wellknown-names")
     if feat.get("odd_rpcs"):
         # RPC names that collide with Python keywords or with attributes of the transport classes
         q = f.message("OddRequest")
@@ -550,11 +594,26 @@ def types_zoo(rng, name, nmsgs=6):
     pkg = f"vp.{name}.{ver}"
     P = "." + pkg
     dirp = pkg.replace(".", "/")
-    f2 = File(f"{dirp}/shared_types.proto", pkg, deps=list(STD_DEPS))
+    # the shared file may carry the base name of a dependency file it imports and declare a type with the dependency
+    # type's simple name (acme/x/v1/status.proto importing google/rpc/status.proto and declaring its own Status)
+    twin = rng.choice([None, ("status", ".google.rpc.Status", "Status"), ("date", ".google.type.Date", "Date"),
+                       ("timestamp", ".google.protobuf.Timestamp", "Timestamp"), ("latlng", ".google.type.LatLng", "LatLng")])
+    f2 = File(f"{dirp}/{twin[0] if twin else 'shared_types'}.proto", pkg, deps=list(STD_DEPS))
     f = File(f"{dirp}/{name}.proto", pkg, deps=list(STD_DEPS) + [f2.pb.name])
     api.add(f2)
     api.add(f)
     tags = api.tags
+    if twin:
+        lt = f2.message(twin[2])
+        lt.field("local_marker", "string")
+        lt.field("n", "int32")
+        job = f2.message("TwinHolder")
+        job.field("theirs", twin[1])
+        job.field("mine", P + "." + twin[2])
+        job.field("theirs_list", twin[1], repeated=True)
+        job.map("theirs_map", "string", twin[1])
+        job.field("mine_list", P + "." + twin[2], repeated=True)
+        tags.add("file-twin-of-dependency:" + twin[0])
     enums = [f2.enum("Color", "COLOR_UNSPECIFIED", "RED", "GREEN", "BLUE", numbers=[0, 3, 1, 7]),
              f.enum("Shape", "SHAPE_UNSPECIFIED", "ROUND")]
     shared = f2.message("Shared")
@@ -721,6 +780,12 @@ def order_api(rng, name, same_short=False):
     for fpb in [f.pb]:
         svc = build.Svc(fpb.service[0], f)
     svc.rpc("Link", P + ".LinkRequest", P + ".LinkRequest", http={"post": "/v1/{name=links/*}:link"}, body="*", sigs=["name"])
+    rparams = [("name", "{routing_id=links/*}/**"), ("name", "{routing_id=links/*/subs/*}/**"), ("ref_0", "{profile=**}"), ("ref_1", ""),
+               ("name", "{database=links/*}"), ("ref_0", "{routing_id=**}")]
+    rng.shuffle(rparams)
+    svc.rpc("RouteLink", P + ".LinkRequest", P + ".LinkRequest", http={"post": "/v1/{name=links/*}:route"}, body="*",
+            routing=[p for p in rparams[:rng.randint(3, 6)] if p[0] in ("name",) or len(order) > int(p[0][-1])])
+    tags.add("multi-parameter-routing")
     # retry config with many codes in shuffled order
     codes = ["UNAVAILABLE", "DEADLINE_EXCEEDED", "ABORTED", "INTERNAL", "RESOURCE_EXHAUSTED", "UNKNOWN", "CANCELLED"]
     names = []
@@ -846,8 +911,14 @@ def rest_api(rng, name, numeric=False, nmethods=10):
             q.field("q_mask", ".google.protobuf.FieldMask")
         if rng.random() < 0.4:
             q.field("q_wrapped", ".google.protobuf." + rng.choice(["Int32Value", "StringValue", "BoolValue", "DoubleValue", "UInt64Value"]))
+        if rng.random() < 0.5:
+            q.field("type", "string", required=rng.random() < 0.6)
+        if rng.random() < 0.4:
+            q.field("format", rng.choice(["int32", "string", "bool"]), required=rng.random() < 0.6)
         if rng.random() < 0.3:
-            q.field("type", "string")
+            q.field("class", color, required=rng.random() < 0.5)
+        if rng.random() < 0.3:
+            q.field("trailing_", "string", required=True)
         out = rng.choice([P + ".Reply", P + ".Reply", P + ".Payload", ".google.protobuf.Empty"])
         kw = {}
         if shape == "get_name":
@@ -944,6 +1015,10 @@ def flat_api(rng, name):
         [[]],
         [["sub.kinds", "opt_ratio"]],
         [["when", "mask"]],
+        [["name", "instances", "parameters"]],
+        [["extra_struct", "ttl"]],
+        [["wrapped_num", "wrapped_text", "values_list"]],
+        [["anything", "name"]],
     ]
     rng.shuffle(sig_sets)
     for i, sigs in enumerate(sig_sets[:rng.randint(8, 12)]):
@@ -965,6 +1040,14 @@ def flat_api(rng, name):
         q.map("by_num", "int32", P + ".Leaf")
         q.field("when", ".google.protobuf.Timestamp")
         q.field("mask", ".google.protobuf.FieldMask")
+        q.field("instances", ".google.protobuf.Value", repeated=True)
+        q.field("parameters", ".google.protobuf.Value")
+        q.field("extra_struct", ".google.protobuf.Struct")
+        q.field("ttl", ".google.protobuf.Duration")
+        q.field("wrapped_num", ".google.protobuf.Int64Value")
+        q.field("wrapped_text", ".google.protobuf.StringValue")
+        q.field("values_list", ".google.protobuf.ListValue")
+        q.field("anything", ".google.protobuf.Any")
         q.field("untouched", "string")
         s.rpc(f"Call{i}", P + f".Req{i}", P + ".Reply", sigs=[",".join(x) for x in sigs])
         for x in sigs:
